@@ -21,6 +21,25 @@ def run(ctx: Ctx):
     rd = ReachingDefs(fwd.node)
     pm = parent_map(fwd.node)
 
+    # ---- S1 / S2 / S5 as a value table first (props/c20.py::_forward_table): when GlobalSoftAttention.forward is inside the interpreted
+    # fragment the shape-based clauses on the masking, the softmax axis and the weighted sum are not consulted
+    fwd_decided = _forward_table(ctx, fwd, rel)
+    _SKIP = ("masked-scores-are--inf-before-softmax", "softmax-input-is-(masked)-score", "output-from-weights-and-values-only",
+             "output-is-weighted-sum", "dimension-denotes-one-axis", "masked-values-cleared-before-the-weighted-sum")
+    _orig_ob = col.ob
+
+    def _ob(rule, clause, key, ok, *a, **k):
+        if fwd_decided and key.endswith(_SKIP):
+            return None
+        return _orig_ob(rule, clause, key, ok, *a, **k)
+    col.ob = _ob
+    try:
+        return _run_rest(ctx, col, pkg, res, rel, fwd, where, rd, pm)
+    finally:
+        col.ob = _orig_ob
+
+
+def _run_rest(ctx, col, pkg, res, rel, fwd, where, rd, pm):
     # ---- S1 blind to masked positions ------------------------------------------------------------------
     sms = [c for c in own_calls(fwd.node) if call_name(c).endswith("softmax")]
     if len(sms) != 1:
@@ -274,7 +293,14 @@ def run(ctx: Ctx):
     if isinstance(m4, ast.Name) and head_axis_in_scores is not None:
         # every definition that carries a mask (the parameter itself re-assigned, or a separate optional local that starts as
         # None) is the mask unsqueezed on one and the same axis
-        vals = [d.value for d in rdm.defs_of(m4) if d.kind != "param" and not (isinstance(d.value, ast.Constant) and d.value.value is None)]
+        pm_mf = parent_map(mf.node)
+
+        def _none_alias(d):
+            # `head_mask = mask` on the branch where mask is None
+            return isinstance(d.value, ast.Name) and d.value.id == "mask" and d.stmt is not None and any(
+                u(t_).replace(" ", "") in ("maskisNone",) and p_ or u(t_).replace(" ", "") in ("maskisnotNone",) and not p_ for t_, p_ in guards_of(pm_mf, d.stmt))
+        vals = [d.value for d in rdm.defs_of(m4) if d.kind != "param" and not (isinstance(d.value, ast.Constant) and d.value.value is None)
+                and not _none_alias(d)]
         axes = {u(v.args[0]) if isinstance(v, ast.Call) and isinstance(v.func, ast.Attribute) and v.func.attr == "unsqueeze"
                 and u(v.func.value) == "mask" and len(v.args) == 1 else "?" for v in vals}
         if len(axes) == 1 and "?" not in axes:
@@ -344,6 +370,107 @@ def _masked_values_excluded_by_selection(ctx: Ctx):
            f"anything", rel, prods[0].lineno)
 
 
+def _forward_table(ctx: Ctx, fwd, rel: str) -> bool:
+    """GlobalSoftAttention.forward interpreted over exact values (sa/interp.py + sa/teval.py; nothing is run). The scores come from a
+    leaf (`self.score(query, key)` -> given integers, so the table holds for every score function), softmax is replaced by the exact
+    surrogate 2**e / sum 2**e along the same axis (-inf -> weight 0: any positive monotone normaliser shows the same masking and axis
+    behaviour), check_input is not entered. Keys of 3 and 4 dimensions with the sequence axis addressed by every legal `dim`
+    (positive and negative), with no mask and with a mask whose excluded positions carry a huge score and an INFINITE value. The output
+    must be the weighted sum of the values at the kept positions only, reduced over the sequence axis - a finite number, equal to the
+    one computed from the kept positions alone."""
+    import math
+    import numpy as np
+    from fractions import Fraction as Fr
+    from sa.interp import Interp
+    from sa.inteval import NotEvaluable
+    from sa.teval import frac_array
+    col = ctx.col
+    where = f"{rel}::{fwd.qualname}"
+    names = [a.arg for a in fwd.node.args.args if a.arg != "self"]
+    bad, n_rows = None, 0
+
+    def surrogate(e, d):
+        e = np.asarray(e, dtype=object)
+        w = np.vectorize(lambda z: Fr(0) if z == -math.inf else Fr(2) ** z, otypes=[object])(e)
+        tot = w.sum(axis=d, keepdims=True)
+        if (tot == 0).any():
+            raise NotEvaluable("softmax over an all-masked group")
+        return w / tot
+    try:
+        for shape, dims in (((3, 2), (0, -3 + 1)), ((2, 3), (1,)), ((2, 3, 2), (1, -3)), ((2, 2, 3), (2, -2))):
+            # `shape` = key.shape[:-1]; the sequence axis has extent 3
+            for dim in dims:
+                R = len(shape) + 1
+                ax = dim if dim >= 0 else dim + R
+                if shape[ax] != 3:
+                    continue
+                for use_mask in (False, True):
+                    E = np.empty(shape, dtype=object)
+                    V = np.empty(shape + (2,), dtype=object)
+                    M = np.ones(shape, dtype=bool)
+                    for idx in np.ndindex(shape):
+                        E[idx] = Fr(sum((i + 1) * (k + 1) for k, i in enumerate(idx)) % 4)
+                        for c_ in range(2):
+                            V[idx + (c_,)] = Fr(1 + 3 * sum((7 ** k) * i for k, i in enumerate(idx)) + c_, 5)
+                    if use_mask:
+                        for idx in np.ndindex(shape):
+                            if idx[ax] == 1 and sum(idx) % 2 == 0:
+                                M[idx] = False
+                                E[idx] = Fr(50)
+                                V[idx + (0,)] = math.inf
+                                V[idx + (1,)] = math.inf
+                    holder = {}
+
+                    def leaf(x, env, E=E):
+                        if isinstance(x, ast.Call):
+                            nm = call_name(x)
+                            if nm == "self.score":
+                                return E.copy()
+                            if nm.endswith("softmax") and not nm.endswith("log_softmax"):
+                                it_ = holder["it"]
+                                if isinstance(x.func, ast.Attribute) and not nm.startswith(("torch", "F.")):
+                                    e_, rest = it_.eval(x.func.value, env), list(x.args)
+                                else:
+                                    e_, rest = it_.eval(x.args[0], env), list(x.args[1:])
+                                dk = [k.value for k in x.keywords if k.arg == "dim"]
+                                d_ = it_.eval((rest or dk)[0], env)
+                                return surrogate(e_, int(d_))
+                        return None
+                    it = Interp(leaf=leaf, tensors=True)
+                    holder["it"] = it
+                    env = dict(zip(names, (frac_array(np.zeros(shape[:ax] + shape[ax + 1:] + (2,), dtype=int).tolist()),
+                                           frac_array(np.zeros(shape + (2,), dtype=int).tolist()), V, M if use_mask else None)))
+                    env["self.dim"] = dim
+                    kind, got = it.run(fwd.node, env)
+                    n_rows += 1
+                    # documented value from the kept positions alone
+                    Em, Vm, Mm = np.moveaxis(E, ax, -1), np.moveaxis(V, ax, -2), np.moveaxis(M, ax, -1)
+                    want = np.empty(Em.shape[:-1] + (2,), dtype=object)
+                    for idx in np.ndindex(Em.shape[:-1]):
+                        keep = [t_ for t_ in range(3) if Mm[idx + (t_,)]]
+                        tot = sum(Fr(2) ** Em[idx + (t_,)] for t_ in keep)
+                        for c_ in range(2):
+                            want[idx + (c_,)] = sum((Fr(2) ** Em[idx + (t_,)]) / tot * Vm[idx + (t_, c_)] for t_ in keep)
+                    ok = kind == "return" and hasattr(got, "shape") and got.shape == want.shape and all(
+                        isinstance(a_, Fr) and a_ == b_ for a_, b_ in zip(np.asarray(got, dtype=object).reshape(-1).tolist(), want.reshape(-1).tolist()))
+                    if not ok and bad is None:
+                        bad = (shape, dim, use_mask, got if kind == "return" else f"raise {got}", want)
+    except NotEvaluable as e:
+        return False
+    if n_rows < 8:
+        return False
+    col.floor("attention_table_rows", n_rows, 8)
+
+    def _show(v):
+        return str([str(x) for x in np.asarray(v, dtype=object).reshape(-1).tolist()][:6] if hasattr(v, "shape") else v)[:140]
+    col.ob("G12", "S1", f"{where}::attention-table", bad is None,
+           (f"for a key of shape {bad[0] + ('K',)} with dim={bad[1]} and {'a mask' if bad[2] else 'no mask'} the layer returns {_show(bad[3])}; the weighted sum "
+            f"of the values at the kept positions alone (masked positions carry a huge score and an infinite value) over the sequence axis is "
+            f"{_show(bad[4])}: the output depends on masked positions, is normalised over another axis than it is reduced over, or is not "
+            f"finite") if bad else "", rel, fwd.line, sample=dict(rows=n_rows))
+    return True
+
+
 def _legal_dims_table(ctx: Ctx):
     """S6: the sequence dimension may be any axis of the key except its last, counted from either end - [-key_dim + 1, key_dim - 2]
     without -1 (which, counted from the end of the QUERY, would be the feature axis). check_input's refusal is evaluated
@@ -356,18 +483,23 @@ def _legal_dims_table(ctx: Ctx):
              and any(isinstance(x, ast.Attribute) and u(x) == "self.dim" for x in ast.walk(n.test))]
     col.floor("dim_range_checks", len(cands), 1)
     bad = None
+    from sa.inline import Inliner as _InlLD
+    inl_ld = _InlLD(f.node)
+    keyn = [p_.name for p_ in f.params if p_.name != "self"][1]
+    tests_ld = [inl_ld.expand(n.test) for n in cands]  # named bounds (`min_dim = 1 - key_dim`) and the rank are looked through
     try:
         for kd in (3, 4):
             for d in range(-kd - 1, kd + 1):
                 def leaf(x, kd=kd):
-                    if isinstance(x, ast.Call) and isinstance(x.func, ast.Attribute) and x.func.attr in ("dim", "ndimension") and not x.args:
+                    if isinstance(x, ast.Call) and isinstance(x.func, ast.Attribute) and x.func.attr in ("dim", "ndimension") and not x.args \
+                            and u(x.func.value) == keyn:
                         return kd
-                    if isinstance(x, ast.Attribute) and x.attr == "ndim":
+                    if isinstance(x, ast.Attribute) and x.attr == "ndim" and u(x.value) == keyn:
                         return kd
-                    if isinstance(x, ast.Name) and x.id not in ("self",):
-                        return kd  # (the local holding key.dim())
+                    if isinstance(x, ast.Call) and call_name(x) == "len" and len(x.args) == 1 and u(x.args[0]) == f"{keyn}.shape":
+                        return kd
                     return None
-                raised = any(bool(int_eval(n.test, {"self.dim": d, "__leaf__": leaf})) for n in cands)
+                raised = any(bool(int_eval(t_, {"self.dim": d, "__leaf__": leaf})) for t_ in tests_ld)
                 legal = -kd + 1 <= d <= kd - 2 and d != -1
                 if raised == legal and bad is None:
                     bad = (kd, d, raised)
@@ -385,14 +517,14 @@ def _mutants():
     A = "_attn.py"
     return [
         M("common-shape-from-key-only", "_attn.py", "shape = list(broadcast_shapes(query.shape[:-1], key.shape[:-1]))", "shape = list(key.shape[:-1])", "operands-expanded-to-the-common-batch-shape"),
-        M("masked-values-only-weighted-out", "_attn.py", "value = torch.where(mask.unsqueeze(-1), value, torch.zeros_like(value))\n", "", "masked-values-cleared-before-the-weighted-sum"),
+        M("masked-values-only-weighted-out", "_attn.py", "value = torch.where(mask.unsqueeze(-1), value, torch.zeros_like(value))\n", "", "attention-table"),
         M("rank-compared-with-minus-one", "_attn.py", "self.dim == -1", "key_dim == -1", "no-vacuous-rank-test"),
         M("mask-not-negated", A, "e = e.masked_fill(~mask, -float('inf'))", "e = e.masked_fill(mask, -float('inf'))", "masked-scores-are--inf"),
-        M("mask-fill-zero", A, "e = e.masked_fill(~mask, -float('inf'))", "e = e.masked_fill(~mask, 0.0)", "masked-scores-are--inf"),
+        M("mask-fill-zero", A, "e = e.masked_fill(~mask, -float('inf'))", "e = e.masked_fill(~mask, 0.0)", "attention-table"),
         M("mask-after-softmax", A, "e = e.masked_fill(~mask, -float('inf'))\n        a = torch.nn.functional.softmax(e, self.dim)",
           "a = torch.nn.functional.softmax(e, self.dim)\n        if mask is not None:\n            a = a * mask", "G16/S1"),
-        M("softmax-dim-unadjusted", A, "torch.nn.functional.softmax(e, self.dim if self.dim >= 0 else self.dim + 1)", "torch.nn.functional.softmax(e, self.dim)", "dimension-denotes-one-axis"),
-        M("sum-dim-minus-1", A, "return (a.unsqueeze(-1) * value).sum(self.dim)", "return (a.unsqueeze(-1) * value).sum(-2)", "dimension-denotes-one-axis"),
+        M("softmax-dim-unadjusted", A, "torch.nn.functional.softmax(e, self.dim if self.dim >= 0 else self.dim + 1)", "torch.nn.functional.softmax(e, self.dim)", "attention-table"),
+        M("sum-dim-minus-1", A, "return (a.unsqueeze(-1) * value).sum(self.dim)", "return (a.unsqueeze(-1) * value).sum(-2)", "attention-table"),
         M("dot-unsqueeze-0", A, "query = query.unsqueeze(self.dim)\n        return (query * key).sum(-1) * self.scale_factor", "query = query.unsqueeze(0)\n        return (query * key).sum(-1) * self.scale_factor", "score-functions-use-self.dim"),
         M("bias-wk-from-wq", A, "self.WK = torch.nn.Linear(key_size, num_heads * self.d_k, bias=bias_WK)", "self.WK = torch.nn.Linear(key_size, num_heads * self.d_k, bias=bias_WQ)", "WK(bias=bias_WK)"),
         M("validate-sibling", A, "bias_WV = argcheck.is_bool(bias_WV, 'bias_WV')", "bias_WV = argcheck.is_bool(bias_WK, 'bias_WV')", "G3"),
